@@ -65,11 +65,7 @@ def wall_case(rng, recurring=False, thorough=False):
         return {"kind": "c16.wall", "limit": 50, "pause_ms": 250, "horizon": ops[-1]["t"] + 750, "ops": ops}
     if recurring and pick < 0.5:
         # a recurring job with a long Fn; one of the two Rems (or replacing Adds) lands while it runs, whatever the phase of the wall clock
-        kind = rng.choice(["rem", "rem", "add"])
-        ops = [{"t": 50, "op": "add", "id": "r", "period": 1000, "dur": 925}]
-        for t in (650, 1250):
-            ops.append({"t": t, "op": "rem", "id": "r"} if kind == "rem" else {"t": t, "op": "add", "id": "r", "delay": 2050, "dur": 0})
-        return {"kind": "c16.wall", "limit": 50, "pause_ms": 250, "horizon": 3350, "ops": ops}
+        return wall_inflight(rng.choice(["rem", "rem", "add1", "addr"]))
     nops = rng.randint(3, 9 if thorough else 7)
     ids = IDS[: rng.randint(2, 3)]
     t = 50
@@ -113,6 +109,25 @@ def wall_case(rng, recurring=False, thorough=False):
     if recurring:
         horizon = max(horizon, 2350)
     return {"kind": "c16.wall", "limit": limit, "pause_ms": pause_ms, "horizon": horizon, "ops": ops}
+
+
+def wall_inflight(kind):
+    """A recurring job with a long Fn; one of the two Rems (or replacing Adds: one-shot "add1", recurring "addr") lands
+    while an Fn of that id runs, whatever the phase of the wall clock: the first replacement is long-running too, so that
+    when the Add at 650 ms still finds the job pending, the one at 1250 ms finds its replacement running."""
+    ops = [{"t": 50, "op": "add", "id": "r", "period": 1000, "dur": 925}]
+    for n, t in enumerate((650, 1250)):
+        if kind == "rem":
+            ops.append({"t": t, "op": "rem", "id": "r"})
+        elif kind == "add1":
+            ops.append({"t": t, "op": "add", "id": "r", "period": 1000, "dur": 925} if n == 0 else {"t": t, "op": "add", "id": "r", "delay": 1050, "dur": 0})
+        else:
+            ops.append({"t": t, "op": "add", "id": "r", "period": 1000, "dur": 925 if n == 0 else 25})
+    return {"kind": "c16.wall", "limit": 50, "pause_ms": 250, "horizon": 3350, "ops": ops}
+
+
+def wall_directed():
+    return [wall_inflight(k) for k in ("rem", "add1", "addr")]
 
 
 ACCS = ["a", "b", "c"]
